@@ -1016,4 +1016,112 @@ theorem quiescent_all_complete (serve : Name → Bool → Option Pkt)
   · rw [(hq o).2] at h; cases h
   · exact h
 
+/-! ### completion is reported exactly once -/
+
+def nComplete (l : List CbRec) : Nat := (l.filter (·.complete)).length
+
+theorem nComplete_append (a b : List CbRec) : nComplete (a ++ b) = nComplete a + nComplete b := by
+  simp [nComplete, List.filter_append]
+
+theorem fe_cb (f : Fetch) (hc : f.complete = false) :
+    nComplete f.finalizeError.2 = 1 ∧ f.finalizeError.1.panic = f.panic := by
+  unfold Fetch.finalizeError
+  simp [hc, Fetch.callback, nComplete]
+
+theorem hdTail_cb (g : Fetch) (p : Pkt) (hg : g.complete = false) (hp : g.panic = false) :
+    nComplete (hdTail g p).2 = (if (hdTail g p).1.complete && !(hdTail g p).1.panic then 1 else 0) ∧
+    ((hdTail g p).1.panic = true → (hdTail g p).1.complete = true) := by
+  have fe1 := fun f : Fetch => (fe_spec f).1
+  unfold hdTail
+  simp only
+  split
+  · simp [nComplete]
+  · split
+    · have := fe_cb g hg
+      simp [this.1, this.2, hp, fe1]
+    · split
+      · have := fe_cb g hg
+        simp [this.1, this.2, hp, fe1]
+      · split
+        · rename_i _ sc _ _ _ _
+          have := fe_cb ({ g with content := g.content.set (numberVal sc) (some p.content) } : Fetch) hg
+          rw [this.1, this.2, fe1]
+          simp [hp]
+        · split
+          · rename_i _ sc _ _ _ _ _
+            simp only [Fetch.callback, nComplete]
+            by_cases hw : advance (g.content.set (numberVal sc) (some p.content)) (g.segCnt.getD 0)
+                (g.segCnt.getD 0 + 1) g.wnd1 = g.segCnt.getD 0
+            · simp [hw, hp]
+            · simp [hw, hp]
+          · simp [nComplete, hg, hp]
+
+theorem hd_cb (f : Fetch) (a : Arrival) (hc : f.complete = false) (hp : f.panic = false) :
+    nComplete (f.handleData a).2 = (if (f.handleData a).1.complete && !(f.handleData a).1.panic then 1 else 0) ∧
+    ((f.handleData a).1.panic = true → (f.handleData a).1.complete = true) := by
+  cases a with
+  | timeout =>
+    rw [hd_timeout _ hc]
+    have := fe_cb f hc
+    simp [this.1, this.2, hp, (fe_spec f).1]
+  | data p =>
+    rw [hd_eq _ _ hc]
+    cases hi : hdInit f p with
+    | none =>
+      have := fe_cb f hc
+      simp [this.1, this.2, hp, (fe_spec f).1]
+    | some g =>
+      simp only
+      obtain ⟨_, _, g3, hg⟩ := hdInit_spec f g p hi
+      have hgp : g.panic = false := by
+        unfold hdInit at hi
+        cases hs : f.segCnt with
+        | some n => simp only [hs] at hi; cases hi; exact hp
+        | none =>
+          simp only [hs] at hi
+          cases hfb : p.fb with
+          | none => simp [hfb] at hi
+          | some fb =>
+            simp only [hfb] at hi
+            split at hi
+            · cases hi
+            · split at hi
+              · cases hi
+              · cases hi; exact hp
+      exact hdTail_cb g p (by rw [g3]; exact hc) hgp
+
+theorem runFetch_complete (f : Fetch) (hc : f.complete = true) : ∀ arr : List Arrival, runFetch f arr = (f, []) := by
+  intro arr
+  induction arr with
+  | nil => rfl
+  | cons a as ih => simp only [runFetch, hd_complete _ _ hc, ih, List.append_nil]
+
+/-- the single-stream machine reports completion at most once; exactly once when it ends complete
+    (and did not hit the Go panic), never while it is not complete -/
+theorem runFetch_once : ∀ (arr : List Arrival) (f : Fetch), f.complete = false → f.panic = false →
+    nComplete (runFetch f arr).2 ≤ 1 ∧
+    ((runFetch f arr).1.complete = true → (runFetch f arr).1.panic = false → nComplete (runFetch f arr).2 = 1) ∧
+    ((runFetch f arr).1.complete = false → nComplete (runFetch f arr).2 = 0) := by
+  intro arr
+  induction arr with
+  | nil => intro f hc _; simp [runFetch, nComplete, hc]
+  | cons a as ih =>
+    intro f hc hp
+    obtain ⟨h1, h2⟩ := hd_cb f a hc hp
+    simp only [runFetch]
+    by_cases hc' : (f.handleData a).1.complete = true
+    · rw [runFetch_complete _ hc']
+      simp only [List.append_nil]
+      rw [h1, hc']
+      cases hpp : (f.handleData a).1.panic <;> simp
+    · have hcf : (f.handleData a).1.complete = false := Bool.eq_false_iff.mpr hc'
+      have hpf : (f.handleData a).1.panic = false := by
+        cases hpp : (f.handleData a).1.panic with
+        | false => rfl
+        | true => exact absurd (h2 hpp) hc'
+      obtain ⟨i1, i2, i3⟩ := ih (f.handleData a).1 hcf hpf
+      rw [nComplete_append, h1, hcf]
+      simp only [Bool.false_and, Bool.false_eq_true, if_false, Nat.zero_add]
+      exact ⟨i1, i2, i3⟩
+
 end Ndn.C15
